@@ -69,6 +69,9 @@ type VC struct {
 	callOrd   map[ssa.Instruction]int
 	assumptionsUsed map[string]bool
 	heap0shared map[string]Term
+	globalsUsed map[string]bool
+	loopsDone map[*ssa.Function]bool
+	ordDone map[*ssa.Function]bool
 }
 
 type loopInfo struct {
@@ -227,6 +230,10 @@ func (st *State) get(key string) Term {
 	if t, ok := st.heap[key]; ok {
 		return t
 	}
+	if i := strings.Index(key, "<"); i > 0 && st.nonnil["pendinghavocprefix:"+key[:i+1]] && !st.nonnil["seen:"+key] {
+		st.nonnil["seen:"+key] = true
+		return st.havocKey(key)
+	}
 	if st.nonnil["pendinghavoc:"+key] {
 		delete(st.nonnil, "pendinghavoc:"+key)
 		return st.havocKey(key)
@@ -333,6 +340,19 @@ func (st *State) writeLeaf(p PtrV, lf leaf, v Term) {
 
 // load reads a value of the pointee type through p.
 func (st *State) load(p PtrV, old bool) Val {
+	if p.Kind == "cell" && strings.HasPrefix(p.Root, "global.") && p.Path == "" {
+		if gi, ok := st.vc.w.GlobalInit[strings.TrimPrefix(p.Root, "global.")]; ok {
+			st.vc.globalsUsed[strings.TrimPrefix(p.Root, "global.")] = true
+			switch gi.Kind {
+			case "const":
+				return TV{gi.Term, p.Elem}
+			case "newerr":
+				name := "glob." + strings.TrimPrefix(p.Root, "global.")
+				st.vc.strLits[name] = "tid"
+				return TV{Term{smtIdent(name), SInt}, p.Elem}
+			}
+		}
+	}
 	if p.Kind == "local" {
 		v, ok := st.fr.lookupLocal(p.Local)
 		if !ok {
@@ -411,8 +431,9 @@ func (st *State) loadAt(p PtrV, t types.Type, sub string, old bool) Val {
 		return TV{tm, t}
 	case kSlice:
 		rd := func(s string) Term { return st.readLeaf(p, leaf{joinPath(sub, s), types.Typ[types.Int], SInt}, old) }
-		sv := SliceV{rd("#arr"), rd("#off"), rd("#len"), rd("#cap"), t}
+		sv := SliceV{rd("#arr"), tInt(0), rd("#len"), rd("#cap"), t}
 		st.assumeSliceWF(sv)
+		st.assumeAllocated(sv.Arr)
 		return sv
 	case kStruct:
 		s := t.Underlying().(*types.Struct)
@@ -434,7 +455,7 @@ func (st *State) assumeSliceWF(s SliceV) {
 		return
 	}
 	st.nonnil[key] = true
-	st.assume(tAnd(tLe(tInt(0), s.Len), tLe(s.Len, s.Cap), tLe(tInt(0), s.Off), tLe(s.Cap, Term{"9223372036854775807", SInt})))
+	st.assume(tAnd(tLe(tInt(0), s.Len), tLe(s.Len, s.Cap), tLe(s.Cap, Term{"9223372036854775807", SInt})))
 }
 
 func (st *State) assumeRange(t Term, typ types.Type) {
@@ -486,8 +507,10 @@ func (st *State) storeAt(p PtrV, t types.Type, sub string, v Val) {
 	case kSlice:
 		sv := v.(SliceV)
 		wr := func(s string, tm Term) { st.writeLeaf(p, leaf{joinPath(sub, s), types.Typ[types.Int], SInt}, tm) }
+		if sv.Off.S != "0" {
+			fail("storing a slice with non-zero offset into the heap is outside the modelled subset")
+		}
 		wr("#arr", sv.Arr)
-		wr("#off", sv.Off)
 		wr("#len", sv.Len)
 		wr("#cap", sv.Cap)
 	case kStruct:
@@ -611,8 +634,9 @@ func (st *State) freshVal(prefix string, t types.Type) Val {
 		st.assumeRange(c, t)
 		return TV{c, t}
 	case kSlice:
-		sv := SliceV{st.declare(prefix+".arr", SInt), st.declare(prefix+".off", SInt), st.declare(prefix+".len", SInt), st.declare(prefix+".cap", SInt), t}
+		sv := SliceV{st.declare(prefix+".arr", SInt), tInt(0), st.declare(prefix+".len", SInt), st.declare(prefix+".cap", SInt), t}
 		st.assumeSliceWF(sv)
+		st.assumeAllocated(sv.Arr)
 		return sv
 	case kStruct:
 		s := t.Underlying().(*types.Struct)
@@ -664,6 +688,9 @@ func (st *State) assumeAllocated(r Term) {
 
 func (st *State) oblige(kind, label string, goal Term, info string) {
 	vc := st.vc
+	if st.fr != nil && st.fr.fn != vc.fn {
+		label += "@in:" + funcKey(st.fr.fn)
+	}
 	name := vc.key + "#" + kind + ":" + label
 	if goal.S == "true" {
 		// still recorded: trivially discharged
